@@ -701,6 +701,23 @@ func (env *SpecEnv) evalCall(e *SExpr) *Value {
 			return &Value{K: VScalar, SpecKind: "mmap", T: m.Elem(), S: env.st.loadLeaf(mapClass(m)+"#val", SArray(ks, es), x.S)}
 		case "zeros":
 			return &Value{K: VScalar, SpecKind: "mmap", T: types.Typ[types.Int], S: ConstArray(SArray(SInt, SInt), mkInt(0))}
+		case "ptr":
+			// ptr(r, "*T"): the integer reference r viewed as a pointer to T
+			x := arg(0)
+			if e.Args[1].Kind != SStrLit {
+				specFail("ptr(ref, \"*T\")")
+			}
+			tn := strings.TrimPrefix(e.Args[1].Name, "*")
+			var ty types.Type
+			if i := strings.LastIndex(tn, "."); i >= 0 {
+				ty = env.reg.resolveSType(env.pkg, &SType{Kind: "name", Pkg: tn[:i], Name: tn[i+1:]})
+			} else {
+				ty = env.reg.resolveSType(env.pkg, &SType{Kind: "name", Name: tn})
+			}
+			if ty == nil {
+				specFail("ptr: unknown type %s", tn)
+			}
+			return scalar(x.S, types.NewPointer(ty))
 		case "contents":
 			// contents(s): the element map of slice s (index -> element), scalar element types only
 			x := arg(0)
